@@ -50,7 +50,10 @@ int main(int argc, char **argv) {
             GraphD g;
             for (int i = 0; i < ig.n; i++) boost::add_vertex(g);
             auto wm = boost::get(boost::edge_weight, g);
-            for (auto &e : ig.edges) { auto ed = boost::add_edge(e.u, e.v, g).first; wm[ed] = (double) e.w / (double) ig.den; }
+            // weight = w / den * 10^exp10 (extra token exp10=<int>): the sign is that of w also for magnitudes far below 1
+            double scale = 1.0;
+            for (auto &t : ig.extra) { auto kv = split(t, '='); if (kv.size() == 2 && kv[0] == "exp10") scale = std::pow(10.0, atof(kv[1].c_str())); }
+            for (auto &e : ig.edges) { auto ed = boost::add_edge(e.u, e.v, g).first; wm[ed] = (double) e.w / (double) ig.den * scale; }
             bool l = parmcb::has_loops(g), m = parmcb::has_multiple_edges(g), np = parmcb::has_non_positive_weights(g, boost::get(boost::edge_weight, g));
             emit(J().s("e", "Valid").i("n", ig.n).raw("edges", edges_json(ig)).b("loops", l).b("multi", m).b("nonpos", np).str());
         }
